@@ -464,6 +464,7 @@ func scenarioC20Service(rc *RunCtx) *Violation {
 		key := 1
 		var contexts []int
 		served := false
+		watching := map[int]bool{}
 		for step := 0; step < nSteps && c.viol == nil; step++ {
 			if step == cutAt {
 				break
@@ -475,7 +476,32 @@ func scenarioC20Service(rc *RunCtx) *Violation {
 					c.flushDeferred()
 				}
 			}
-			switch g.n(15) {
+			switch g.n(17) {
+			case 15, 16:
+				// a build that nobody asked for over the protocol (started by the watcher or by
+				// the dev server) is held inside a host callback; then the host cancels
+				if len(contexts) > 0 && !abrupt {
+					k := contexts[g.n(len(contexts))]
+					if c.disposeSent[k] {
+						break
+					}
+					c.pump(true)
+					c.hold = true
+					if !watching[k] {
+						watching[k] = true
+						c.request(fmt.Sprintf("watch key=%d", k), map[string]interface{}{"command": "watch", "key": k, "delay": watchDelays[g.n(3)]})
+					}
+					m := p.Mods[0]
+					m.Version++
+					d.PutFile(p.Root+"/"+m.Path, []byte(p.RenderModule(m)), false)
+					verifsim.Sleep(800 * time.Millisecond)
+					c.pump(false) // callbacks of the watcher's build arrive and are held
+					c.request(fmt.Sprintf("cancel key=%d", k), map[string]interface{}{"command": "cancel", "key": k})
+					verifsim.Sleep(50 * time.Millisecond)
+					c.pump(false)
+					desc = append(desc, fmt.Sprintf("watch+edit+hold+cancel(%d)", k))
+					c.pump(true) // releases the held answers
+				}
 			case 10, 12, 13, 14:
 				// burst: several operations on one context sent back to back, without
 				// waiting for any response in between (rebuild, cancel, dispose, watch ...)
@@ -568,6 +594,7 @@ func scenarioC20Service(rc *RunCtx) *Violation {
 					// (graceful sessions only: a watching context that nobody disposes polls forever)
 					k := contexts[g.n(len(contexts))]
 					c.request(fmt.Sprintf("watch key=%d", k), map[string]interface{}{"command": "watch", "key": k, "delay": watchDelays[g.n(len(watchDelays))]})
+					watching[k] = true
 					desc = append(desc, fmt.Sprintf("watch(%d)", k))
 					// an edit that a watching context will pick up
 					m := p.Mods[0]
